@@ -91,7 +91,7 @@ def run(ctx):
     rep = ctx.rep
     rng = Rng(ctx.seed, 20)
     items = []
-    for i in range(ctx.budget(500, 20000)):
+    for i in range(ctx.budget(250, 20000)):
         r = rng.fork(i)
         text, lay, g = descs.structured(r)
         check_segment(rep, text)
